@@ -668,7 +668,7 @@ func runC17(res *vh.Result) {
 	res.Rule = "one process run per case under the Go race detector: full stack started through the application's run path, 2-4 asynchronous SMFs issuing seeded valid " +
 		"histories with duplicates and retransmissions, 2-8 producers (kernel multicast dispatched by the real mux goroutine, injected and real 1 s periodic ticks, direct " +
 		"report notifications), transaction timers of 2-20 ms, simulated-kernel latency, GOMAXPROCS 2/4/16 and a stop request in one of four placements; monitors: race " +
-		"reports, Fatal/panic, termination and goroutine census after Stop, exactly-once accounting of uniquely valued reports; every case is non-trivial; " +
+		"reports, Fatal/panic, termination and goroutine census after Stop, exactly-once accounting of uniquely valued reports (injected ones and the kernel-issued answers to periodic queries); every case is non-trivial; " +
 		"distinct = distinct observed interleaving signatures (arrival order and kind of the first 200 Session Report Requests across the SMFs)"
 	res.Assumptions = []string{
 		"race reports are attributed by the innermost non-runtime frame of each access; third-party-only races are listed, harness races make the run inconclusive",
